@@ -30,6 +30,9 @@ CLAIMS = {
  "C10": (TECH,
          "For 44 pattern x student-shape pairs (quick: 26) with symbolic identifiers and constants in the student tree, CrossHair confirms over all paths that every AstMap the real matcher returns passes an independent witness checker (kinds, primitive content in type and value, direct ordered children up to +/* swap, single identifier per _var_, __expr__ bound to the node at its position) and that absent concrete content yields no match; identifiers at the boundary of the placeholder syntax are shown to be treated as concrete code.",
          "shape and pattern families are finite; trees with symbolic leaves are built with ast constructors; the witness checker is the oracle", "DESIGN.md §3 C10"),
+ "C11": (TECH,
+         "Bounded-exhaustive: the solver enumerates (with a completeness verdict) a finite grid of 13 student templates x identifier/constant menus (all coincidences) x 9 derivation kinds x positions; for each choice the pattern is derived from the student's own program and the real find_matches must return a match binding the placeholder to what it replaced. The pattern has to be text, so the matcher runs on concrete values; the claim is exhaustive within the grid only.",
+         "finite grid; matcher executed concretely (untraced) per enumerated path; CrossHair's path enumeration", "DESIGN.md §3 C11"),
  "C12": (TECH,
          "With the parser replaced by a stub raising error objects whose position attributes are symbolic within the shapes harvested from CPython on every run, CrossHair confirms over all paths (files <= 3 lines, section offsets <= 2, 3 exception classes) that verify never raises, reports exactly one syntax feedback on CPython's line shifted by the section offset, and stores the parser's tree on acceptance. The parser's own accept/reject decision is CPython's and is not re-verified.",
          "parser stub constrained to harvested shapes; CrossHair/z3 models; harness oracle", "DESIGN.md §3 C12"),
